@@ -5,12 +5,21 @@ TECH = "machine-checked proof in Coq over an executable model + extracted-model/
 COMMON_NOTE = (" Trusted: Coq 8.16.1 kernel; the hand transcription of the named Rust functions (validated on every run by the correspondence stream);"
                " rowan modelled as an inductive tree; extraction (ExtrOcamlBasic only), OCaml runner, Rust harness, Python driver."
                " No axioms (Print Assumptions: closed under the global context).")
-CHECKS = {
- "C01": ("Coq theorems over all strings (no length bound): the modelled lexer partitions the input into non-empty tokens, the modelled parser keeps every token text in order, both are total (no panic site, fuel suffices), hence from_str_relaxed returns a tree whose text is the input and from_str succeeds exactly when the error list is empty. Tied to the code by a correspondence run (token lists, printed text, error counts, strict result, paragraph items) on every check.",
-         "Model: src/lex.rs, src/common.rs, fn parse of src/lossless.rs." + COMMON_NOTE, "DESIGN.md §4 C01"),
- "C09": ("Coq theorems over all strings and both allow_substvar settings: relations lexer partition+totality; the parser (a state-machine transcription with explicit panic/fuel flags) conserves all token text, never bumps on an empty token list and every loop terminates within its fuel; hence parse_relaxed prints the input, from_str succeeds exactly when no error is reported, and Entry/Relation::from_str print a contiguous substring. Tied to the code by the rel-parse correspondence stream.",
-         "Model: Lexer in debian-control/src/relations.rs; fn parse and FromStr impls in debian-control/src/lossless/relations.rs." + COMMON_NOTE, "DESIGN.md §4 C09"),
-}
+def load_checks():
+    import importlib
+    out = {}
+    for i in range(1, 21):
+        pid = "C%02d" % i
+        try:
+            mod = importlib.import_module("vlib.props." + pid.lower())
+        except ModuleNotFoundError:
+            continue
+        p = mod.PROP
+        if getattr(p, "claimed", True):
+            out[pid] = (p.level_text, p.level_note + COMMON_NOTE, p.design_ref)
+    return out
+CHECKS = load_checks()
+NA_REASONS = {}
 NOT_YET = "check not built yet (work in progress; the technique applies, see DESIGN.md §4)"
 
 def main():
@@ -35,6 +44,6 @@ def main():
     for i in range(1, 21):
         pid = "C%02d" % i
         if pid not in CHECKS:
-            m["not_applicable"].append({"property_id": pid, "reason": NOT_YET})
+            m["not_applicable"].append({"property_id": pid, "reason": NA_REASONS.get(pid, NOT_YET)})
     json.dump(m, open(os.path.join(VERIF, "MANIFEST.json"), "w"), indent=1)
 main()
